@@ -55,11 +55,13 @@ where
     {
         let mut digested = util::CrcDigestRead::new(input, &mut digest);
         let backward_size = digested.read_u32::<LittleEndian>()?;
-        if index_size as u32 != (backward_size + 1) << 2 {
+        // Computed in 64 bits: in 32 bits `(backward_size + 1) << 2` wraps (or
+        // overflows), so a wrong backward size could compare equal.
+        let expected_index_size = (u64::from(backward_size) + 1) << 2;
+        if index_size as u64 != expected_index_size {
             return Err(error::Error::XzError(format!(
                 "Invalid index size: expected {} but got {}",
-                (backward_size + 1) << 2,
-                index_size
+                expected_index_size, index_size
             )));
         }
 
